@@ -709,6 +709,40 @@ def stmt_holds(s, ctx):
     raise RefError("unknown statement %r" % (k,))
 
 
+def stmt_probe(s, ctx):
+    """Evaluates every part of a statement whatever its conditions say, as the library does when it builds
+    the formula: a contestable construct (Corner) under a false condition, or after a statement that is already
+    false, makes the call contestable all the same.  Returns the statement's truth."""
+    k = s[0]
+    if k == "if":
+        res, taken = True, False
+        for cond, body in s[1]:
+            c = truth(cond, ctx)
+            r = [stmt_probe(x, ctx) for x in body]
+            if c and not taken:
+                res, taken = all(r), True
+        if s[2] is not None:
+            r = [stmt_probe(x, ctx) for x in s[2]]
+            if not taken:
+                res = all(r)
+        return res
+    if k == "imp":
+        c = truth(s[1], ctx)
+        r = [stmt_probe(x, ctx) for x in s[2]]
+        return all(r) if c else True
+    if k == "fe":
+        lp = ctx.abs(s[1])
+        n = len(_read_list(ctx, lp))
+        res = True
+        for i in range(n):
+            c2 = ctx.sub(fe=ctx.fe + [(lp, i)])
+            for x in s[3]:
+                if not stmt_probe(x, c2):
+                    res = False
+        return res
+    return stmt_holds(s, ctx)
+
+
 def soft_list(stmts, ctx_guard=None):
     """Flattens the soft statements of a statement list in textual order as
     (guards, expr) where guards is a list of (cond_expr, polarity)."""
@@ -841,6 +875,16 @@ class Call(object):
                 return False
         return True
 
+    def holds_strict(self, env):
+        """as holds(), but every statement and every branch is evaluated (see stmt_probe)"""
+        res = True
+        for sp, s, _ in self.stmts:
+            if not self._exists(sp, env):
+                continue
+            if not stmt_probe(s, self.ctx(env, sp)):
+                res = False
+        return res
+
     def violated(self, env):
         out = []
         for sp, s, org in self.stmts:
@@ -879,7 +923,7 @@ class Call(object):
             if szidx and not self.canonical(tup, szidx, doms):
                 continue
             env = dict(zip(paths, tup))
-            if self.holds(env):
+            if self.holds_strict(env):
                 sols.append(tup)
         return sols
 
